@@ -956,8 +956,9 @@ class GCodeBuilder(GCodeCore):
             for hook in self._hooks:
                 params = hook(origin, target, params, self.state)
 
+        statement, params = super()._prepare_move(point, params, comment)
         self._track_move_params(params)
-        return super()._prepare_move(point, params, comment)
+        return statement, params
 
     def _prepare_rapid(self,
         point: Point, params: ParamsDict,
@@ -975,8 +976,9 @@ class GCodeBuilder(GCodeCore):
                 - (ParamsDict) The updated movement parameters
         """
 
+        statement, params = super()._prepare_rapid(point, params, comment)
         self._track_move_params(params)
-        return super()._prepare_rapid(point, params, comment)
+        return statement, params
 
     def _track_move_params(self, params: ParamsDict) -> None:
         """Update the current state given the movement parameters.
@@ -988,11 +990,22 @@ class GCodeBuilder(GCodeCore):
             ParamsDict: The updated movement parameters
         """
 
-        if params.get("F") is not None:
-            self.state._set_feed_rate(params.get("F"))
+        feed_rate = params.get("F")
+        tool_power = params.get("S")
 
-        if params.get("S") is not None:
-            self.state._set_tool_power(params.get("S"))
+        # Validate everything before changing anything
+
+        if feed_rate is not None:
+            self.state._validate_feed_rate(feed_rate)
+
+        if tool_power is not None:
+            self.state._validate_tool_power(tool_power)
+
+        if feed_rate is not None:
+            self.state._set_feed_rate(feed_rate)
+
+        if tool_power is not None:
+            self.state._set_tool_power(tool_power)
 
     def _update_axes(self, axes: Point, params: ParamsDict) -> None:
         """Update the internal state after a movement.
